@@ -400,6 +400,51 @@ def rule_c07(prog, rep):
                                           % (canon(l), width, canon(children(x)[1])[:40], 'unknown' if ub is None else ub))
     # ---- I5
     allowed = {'put_data': ('++',), 'remove_data': ('--',), 'qhasharr_clear': ('=0',), 'qhasharr': ('=0',)}
+    # a static helper all of whose call sites lie in one permitted writer (or in another such helper of it) is part of that
+    # writer: it inherits the writer's permission (`account_slot()` split out of put_data)
+    unit_funcs = [g for g in prog.funcs_in(UNIT) if g.body is not None]
+    callers = {}
+    for g in unit_funcs:
+        for y in walk(g.body):
+            if y.get('kind') == 'CallExpr':
+                nm = prog.callee_name(y)
+                if nm:
+                    callers.setdefault(nm, set()).add(g.name)
+    # a function whose address is taken can be called from anywhere
+    addr_taken = set()
+    for g in unit_funcs:
+        par_ = {}
+        for y in walk(g.body):
+            for c_ in children(y):
+                par_[id(c_)] = y
+        for y in walk(g.body):
+            if y.get('kind') == 'DeclRefExpr' and (y.get('_ref') or ('',))[0] == 'fn':
+                p_ = par_.get(id(y))
+                while p_ is not None and p_.get('kind') in ('ImplicitCastExpr', 'ParenExpr'):
+                    q_ = par_.get(id(p_))
+                    if q_ is not None and q_.get('kind') == 'CallExpr' and children(q_)[0] is p_:
+                        break
+                    p_ = q_
+                else:
+                    if p_ is None or p_.get('kind') != 'CallExpr':
+                        addr_taken.add(y['_ref'][1])
+    owner = {k: {k} for k in allowed}
+    changed_ = True
+    while changed_:
+        changed_ = False
+        for g in unit_funcs:
+            if g.name in owner or not g.static or g.name in addr_taken:
+                continue
+            cs = callers.get(g.name)
+            if cs and all(c in owner for c in cs):
+                own = set().union(*[owner[c] for c in cs])
+                if len(own) == 1:
+                    owner[g.name] = own
+                    changed_ = True
+    for hname, own in owner.items():
+        if hname not in allowed:
+            allowed[hname] = allowed[next(iter(own))]
+    rep.notes['counter_writer_helpers'] = sorted(h for h in owner if h not in ('put_data', 'remove_data', 'qhasharr_clear', 'qhasharr'))
     for f in prog.funcs.values():
         for x in walk(f.body):
             tgt = None
